@@ -4,6 +4,7 @@ import (
 	"bytes"
 	"fmt"
 	"regexp"
+	"strings"
 	"sync"
 	"text/template"
 
@@ -19,6 +20,13 @@ var pool = sync.Pool{
 // Template helper functions
 
 var invalid *regexp.Regexp = regexp.MustCompile(`\W`)
+
+// Resource values are arbitrary text. Inside a double-quoted VCL string a double quote ends the
+// literal and "%XX" is an escape sequence, so both must be written as escapes to read back unchanged.
+var stringQuoter = strings.NewReplacer("%", "%25", `"`, "%22", "\n", "%0A", "\r", "%0D")
+
+// A line comment ends at the line feed: keep the whole comment on its line.
+var commentCleaner = strings.NewReplacer("\r", " ", "\n", " ")
 
 var helperFuncs = template.FuncMap{
 	"printtype": func(dtype int) string {
@@ -37,6 +45,12 @@ var helperFuncs = template.FuncMap{
 	"sanitize": func(name string) string {
 		return invalid.ReplaceAllString(name, "_")
 	},
+	"quote": func(s string) string {
+		return stringQuoter.Replace(s)
+	},
+	"comment": func(s string) string {
+		return commentCleaner.Replace(s)
+	},
 	"objectify": func(p Phase) string {
 		switch p {
 		case RequestPhase:
@@ -54,11 +68,12 @@ var helperFuncs = template.FuncMap{
 
 var dictionaryTemplate = template.Must(
 	template.New("dictionary").
+		Funcs(helperFuncs).
 		Parse(
 			`
 table {{ .Name }} STRING {
   {{- range .Items }}
-  "{{ .Key }}": "{{ .Value }}",
+  "{{ .Key | quote }}": "{{ .Value | quote }}",
   {{- end }}
 }
 `,
@@ -66,11 +81,12 @@ table {{ .Name }} STRING {
 
 var aclTemplate = template.Must(
 	template.New("acl").
+		Funcs(helperFuncs).
 		Parse(
 			`
 acl {{ .Name }} {
 	{{- range .Entries }}
-	{{ if .Negated }}!{{ end }}"{{ .Ip }}"{{ if .Subnet }}/{{ .Subnet }}{{ end }};{{ if .Comment }}  # {{ .Comment }}{{ end }}
+	{{ if .Negated }}!{{ end }}"{{ .Ip }}"{{ if .Subnet }}/{{ .Subnet }}{{ end }};{{ if .Comment }}  # {{ .Comment | comment }}{{ end }}
 	{{- end }}
 }
 `,
@@ -82,7 +98,7 @@ var backendTemplate = template.Must(
 		Parse(
 			`
 backend F_{{ .Name | sanitize }} {
-	{{ if .Address }}.host = "{{.Address}}";{{ end }}
+	{{ if .Address }}.host = "{{ .Address | quote }}";{{ end }}
 }
 `,
 		))
